@@ -31,6 +31,6 @@ def inline_silent_rules(expr: Expression, rules: Mapping[str, Rule]) -> Expressi
     if isinstance(expr, Identifier):
         # A reference to a rule that is not defined is left for parse time.
         rule = rules.get(expr.value)
-        if rule and rule.modifier & SILENT:
+        if rule and rule.modifier & SILENT and not expr.tag:
             return rule.expression
     return expr
